@@ -90,6 +90,60 @@ Third round (other source files, table UNITS; one generated file per unit):
 Conventions (DESIGN 3): Python ints are Z; a shift count that depends on a parameter gets CPython's `ValueError: negative shift
 count` guard, a count built from object state and literals only is taken as non-negative (class invariant 0 <= prefixlen <=
 width); method parameters are ints unless declared otherwise in WHITELIST; every parameter of a module-level function is declared in FUNCS.
+SRCB (text functions: netaddr/ip/glob.py -> pysrc_glob_gen.v; class FnB, a subclass of Fn used only for the units of SRCB_UNITS,
+so the text generated for every other unit is untouched; prelude Model/SrcPreludeGlob.v):
+* Values: `addr` = an IPAddress object (version, value); `rng` = an IPRange object (version, start, end); `char` = one character;
+  lists of str.  `IPAddress(x)` of an `addr` x = x (copy constructor); IPAddress(s) / IPRange(s1, s2) / str(ip) for text are NOT
+  translated: they are the hand-model symbols py_ipaddress_of_str / py_iprange_of_strs / py_addr_str; an `addr` passed to an imported
+  function of SRCB_ADDR_AS_NET (iprange_to_cidrs: it applies IPNetwork() to its arguments) is py_net_of_addr (the /width network);
+  `x.version` = the translated IPAddress.version; `cidr[k]` (literal k, cidr an IPNetwork) = the translated IPNetwork.__getitem__
+  of the listlike unit (SRCB_IN_UNIT); an IPAddress result of a translated definition is an `addr`.
+* Text: `s.split('c')` = split, `s.split('c', 1)` = split1, `'sep'.join(l)` = join, `'c' in s` / `c in s` for a character = contains_char,
+  `'..%s..%d..' % (a, ..)` = String.append of the pieces with fmt_d for ints, str(n) = fmt_d n, int(s) = py_int_o 10 (ValueError),
+  `s1 + s2` = String.append, `n * 'c'` = py_str_times, truth of a str = py_str_nonempty; `any(<bool> for c in s)` = existsb over
+  chars s; `s[0] == 'c'` = py_str_head_is, accepted only after an operand `not s` of the same `or` (s is non-empty there);
+  `x is True` for a bool x = x.
+* Lists: `l[i]` for an int expression i = py_index (negative indices, IndexError); `a, b = <list>` = py_unpack2 (ValueError);
+  `[e for x in xs]` = map, or py_map_o when e can raise (in order, first exception wins); `f(*g(x))` for a tuple-valued g binds the
+  components; `for i in range(n)` / `range(a, b)` / `_iter_range(a, b)` whose variable is read = a loop over py_zrange a b.
+* `if A and B:` / `if A or B:` whose later operand can raise = the nested ifs Python evaluates (`if A: if B: X else: Y else: Y`).
+* `def g(..)` directly in the body of f, reading no local of f: the separate definition src_f_g (table entry "f.g"); calls below it.
+* `try: body / except E | (E1, ..): handler` (any handler other than the single `raise` / `pass` the base class reads) =
+  py_try [E..] body handler: both answer `inl <returned value>` | `inr <variables assigned and read later>` (no sum when neither
+  returns); the handler starts from the variables as they were at `try` -- a variable the body assigns is UNBOUND in the handler
+  unless every statement of the body from its first assignment on cannot raise (`l.append(<name>)`, `x = <name or literal>`);
+  break / continue inside are rejected.
+* The IPGlob class (STATEVARS: _start, _end `addr`, _glob `optstr` = a slot that holds a str or is unset): `self.p = e` for a class-level
+  `p = property(getter, setter, ..)` is `self.<setter>(e)`, a read of `self.p` is `self.<getter>()`; a read of an `optstr` slot is
+  py_attr_get (AttributeError when unset), an assignment to it stores Some; `super(C, self).m(..)` is the hand-model symbol of
+  SRCB_SUPER (py_iprange_init / py_iprange_getstate / py_iprange_setstate; it assigns the state attributes listed there);
+  `__init__` / `__setstate__` (SRCB_CONSTRUCTORS) take no incoming state: optstr slots start as None, the other attributes are
+  unbound until assigned, the result is the state built.  As for every STATEVARS class a method that raises says nothing about the
+  state it leaves behind.
+SRCB, netaddr/ip/nmap.py -> pysrc_nmap_gen.v (prelude Model/SrcPreludeNmap.v):
+* A Python set of ints is the duplicate-free list of its elements in insertion order (as for the splitter unit): `set()` = [],
+  `s.add(x)` = py_set_add Z.eqb, `sorted(s)` = py_sorted_asc (ascending insertion sort).
+* `def f(*xs)` with xs declared `list ..` takes the tuple of its arguments as one list parameter.
+* A GENERATOR function (its body contains `yield e` statements; `yield from`, yield as an expression, `return` are rejected) is the
+  list of the OUTCOMES of its yields in order (`yielded`; type `oaddr` = outcome of an IPAddress object): `yield e` appends the outcome
+  of e (Ok v, or the Raise of a failing e); `for x in g: yield x` appends all outcomes of g (g a generator call, or an IPNetwork:
+  py_iter_net, the hand model of IPListMixin.__iter__); the first Raise in the list is the exception that ends the generator
+  (Nmap.gen_of_outcomes reads the list that way).  Calling a generator function never raises: an exception of its body before the
+  first yield is the one-element list [Raise e] (py_gen_body).  Fail closed: no raising construct may follow a yield on any path,
+  and a loop that yields must be effect-free (otherwise the items yielded so far would be lost).  `_iter_next(g)` on a generator
+  made in that very expression = py_gen_next (its first outcome; StopIteration = Unsupported).
+* A loop variable that is mentioned after its loop but is dead there (FnB.read_first: always written before it is read again) is
+  renamed inside the loop (x -> x_for); `a, _ = <list>` ignores the second component.
+* The parsers reached with TEXT arguments are table SRCB_CTOR: for nmap.py IPAddress(text) and inet_pton(AF_INET6) inside
+  IPNetwork(text) are `Variable`s of a Section of the generated file (the same two platform parameters as Model/Nmap.v).
+SRCB, netaddr/ip/rfc1924.py -> pysrc_rfc1924_gen.v (prelude Model/SrcPreludeB85.v):
+* `ord(c)` for a character = code c; `chr(i)` = py_chr_o (a one-character str; Unsupported outside 0..255); `range(..)` consumed as a
+  list = py_zrange; `list(s)` = py_str_list; `n * 'c'` = py_str_times; `s1 + s2` = String.append.
+* BASE_85 / BASE_85_DICT are module-level tables whose VALUES harness/gen/codec.py regenerates (UNIT_TABLES: BASE_85 = the list of
+  its one-character strings; SRCB_DICTS: `BASE_85_DICT[k]` = py_b85_dict_get, KeyError).
+* `IPAddress(n)` for an int n (version inferred) = py_ipaddress_of_int (hand model Ip.addr_of_int); `str(ip)` of the IPv6 result is
+  the Section variable addr_str (the formatter is property C01).  FUEL of the `while int_val > 0` loop: 21 (the model's 20 + 1).
+* A `for` variable that the body assigns (`num = BASE_85_DICT[num]`) runs as x_for with `x = x_for` first in the body.
 SRCD (constructors, pickled state, the network parser of netaddr/ip/__init__.py -> coq/Gen/pysrc_ctor_gen.v, pysrc_parse_gen.v): the
 units of CTOR_UNITS are read by the subclass CtorFn of Fn in harness/gen/pysrc_ctor.py, whose docstring describes the added
 constructs (constructor state as locals with `super().__init__()` inlined, strategy modules represented by their version, tests
@@ -611,6 +665,89 @@ PURE_METHODS = PURE_METHODS + ("findall",)         # <compiled pattern>.findall(
 MODULE_HOOK = {}    # (SRCF) output file -> function applied to the parsed Module of that unit before anything is translated
 SRCF_STRUCT_SIZES = {"B": 1, "H": 2, "I": 4}       # struct format characters (big-endian, standard sizes) -> bytes per field
 
+# ---- SRCB: netaddr/ip/glob.py, nmap.py, rfc1924.py -- text functions, translated by class FnB (below class Fn) -----------
+# (all of this block is trusted translator input, like the tables above)
+SRCB_UNITS = [
+    ("netaddr/ip/glob.py", "pysrc_glob_gen.v", "", " Base.PyStr Model.SrcPreludeStr Model.SrcPreludeGlob",
+     [(None, "_octet_value", {"token": "str"}), (None, "valid_glob", {"ipglob": "str"}),
+      (None, "glob_to_iptuple", {"ipglob": "str"}), (None, "glob_to_iprange", {"ipglob": "str"}),
+      (None, "iprange_to_globs._iprange_to_glob", {"lb": "addr", "ub": "addr"}),
+      (None, "iprange_to_globs", {"start": "addr", "end": "addr"}),
+      (None, "glob_to_cidrs", {"ipglob": "str"}), (None, "cidr_to_glob", {"cidr": "net"})]),
+    ("netaddr/ip/nmap.py", "pysrc_nmap_gen.v", "", " Base.PyStr Model.SrcPreludeStr Model.SrcPreludeGlob Model.SrcPreludeNmap",
+     [(None, "_nmap_octet_target_values", {"spec": "str"}), (None, "_generate_nmap_octet_ranges", {"nmap_target_spec": "str"}),
+      (None, "_parse_nmap_target_spec", {"target_spec": "str"}), (None, "valid_nmap_range", {"target_spec": "str"}),
+      (None, "iter_nmap_range", {"nmap_target_spec": "list str"})]),
+    ("netaddr/ip/rfc1924.py", "pysrc_rfc1924_gen.v", "", " Base.PyStr Model.SrcPreludeStr Model.SrcPreludeGlob Model.SrcPreludeB85",
+     [(None, "chr_range", {"low": "char", "high": "char"}), (None, "ipv6_to_base85", {"addr": "int"}),
+      (None, "base85_to_ipv6", {"addr": "str"})]),
+]
+UNITS += SRCB_UNITS
+FILES = FILES + tuple(u[1] for u in SRCB_UNITS)
+# the units whose functions are translated by FnB (filled after the class definition)
+UNIT_FNCLASS = {}
+# every translator by its output file (None: the first one); lets a unit use a definition of another unit over another file:
+# BY_OUT (defined above, filled by Translator.__init__)
+# definitions a FnB unit may use from another unit: (receiver, name) -> that unit's output file
+SRCB_IN_UNIT = {("IPNetwork", "__getitem__:int"): "pysrc_listlike_gen.v"}
+# imported functions that apply IPNetwork(x) to their arguments first thing (their parameters are declared `net` in FUNCS):
+# an IPAddress object passed to them is the host network /width (SrcPreludeGlob.py_net_of_addr)
+SRCB_ADDR_AS_NET = ("netaddr.ip.iprange_to_cidrs",)
+# value types of FnB: `addr` = an IPAddress object (version, value); `rng` = an IPRange object (version, start, end);
+# `char` = one character of a str
+SRCB_VALUES = ("addr", "rng", "char")
+COQTY.update({"addr": "(Z * Z)", "rng": "(Z * Z * Z)", "char": "ascii"})
+SRCB_RESERVED = set("split split1 join contains_char fmt_d chars str_of py_index py_unpack2 py_map_o py_zrange py_zseq "
+                    "py_sorted_asc py_ins_asc py_str_nonempty py_str_head_is py_str_times py_str_list py_try "
+                    "py_ipaddress_of_str py_iprange_of_strs py_addr_str py_net_of_addr py_set_add map existsb forallb "
+                    "length ascii code chr len strip lower append py_int".split())
+PURE_METHODS = PURE_METHODS + ("split", "join")      # s.split(c) / sep.join(l): new values, s and sep unchanged
+# the address parsers a unit reaches with TEXT arguments are not translated: (class, argument kinds) -> symbol.  For nmap.py
+# IPAddress(text) and the IPv6 half of IPNetwork(text) are the Section variables of Model/Nmap.v (platform functions, property C01):
+# the generated file declares the same two variables (UNIT_PREAMBLE / UNIT_POSTAMBLE) and its definitions take them as parameters
+SRCB_CTOR = {"pysrc_glob_gen.v": {("IPAddress", "str"): "py_ipaddress_of_str", ("IPRange", "str", "str"): "py_iprange_of_strs"},
+             "pysrc_nmap_gen.v": {("IPAddress", "str"): "ip_address", ("IPAddress", "str", "4"): "py_ipaddress4_of_str",
+                                  ("IPNetwork", "str"): "py_ipnetwork_of_str pton6"}}
+SRCB_CTOR["pysrc_rfc1924_gen.v"] = {("IPAddress", "int"): "py_ipaddress_of_int"}      # IPAddress(n): version inferred (Ip.addr_of_int)
+SRCB_CTOR_KIND = {"IPAddress": "addr", "IPRange": "rng", "IPNetwork": "net"}
+# str(ip) for an IPAddress object: hand model for IPv4 (py_addr_str); for rfc1924.py (IPv6 text, property C01) a parameter
+SRCB_ADDR_STR = {"pysrc_rfc1924_gen.v": ("str", "(addr_str %s)")}
+# module-level tables whose VALUES harness/gen/codec.py regenerates (Gen/codec_gen.v) and checks against each other:
+# BASE_85 as the list of its one-character strings, BASE_85_DICT[k] as a lookup function (KeyError)
+UNIT_TABLES["pysrc_rfc1924_gen.v"] = {"BASE_85": "list str"}
+SRCB_DICTS = {"pysrc_rfc1924_gen.v": {"BASE_85_DICT": ("str", "int", "py_b85_dict_get")}}
+UNIT_PREAMBLE["pysrc_rfc1924_gen.v"] = (
+    "(* str(ip) of the IPv6 IPAddress object base85_to_ipv6 returns: the address formatter (property C01), a parameter *)\n"
+    "Section WithFormatter.\nVariable addr_str : Z * Z -> string.\n")
+# the hand model runs `while int_val > 0` 20 times at most and tests the condition before the fuel; the generated Fixpoint tests
+# the fuel first, so it needs one more unit to see the condition fail
+FUEL[(None, "ipv6_to_base85", 1)] = ("0", 21)
+SRCB_RESERVED |= set("addr_str BASE_85 py_b85_dict_get py_chr_o py_ipaddress_of_int".split())
+# the IPGlob class (netaddr/ip/glob.py): object state (_start, _end: IPAddress objects; _glob: a str, or unset = None) read and
+# written like locals (STATEVARS); `__init__` / `__setstate__` are CONSTRUCTORS: they start from an object whose slots are unset
+# (no state parameters; _glob = None, _start / _end unbound until assigned) and return the state they build.
+# `super(IPGlob, self).m(..)` is NOT translated: the IPRange methods become hand-model symbols (SrcPreludeGlob):
+# (class, m) -> (symbol, state attributes it assigns, state attributes passed in front of the arguments, result type)
+STATEVARS["IPGlob"] = (("_start", "addr"), ("_end", "addr"), ("_glob", "optstr"))
+STATE["IPGlob"] = ()
+SRCB_UNITS[0][4].extend([("IPGlob", m, t) for m, t in (
+    ("_get_glob", {}), ("_set_glob", {"ipglob": "str"}), ("__str__", {}), ("__getstate__", {}),
+    ("__init__", {"ipglob": "str"}), ("__setstate__", {"state": "istate"}))])
+SRCB_CONSTRUCTORS = ("__init__", "__setstate__")
+SRCB_SUPER = {("IPGlob", "__init__"): ("py_iprange_init", ("_start", "_end"), (), ("tup", ("addr", "addr"))),
+              ("IPGlob", "__setstate__"): ("py_iprange_setstate", ("_start", "_end"), (), ("tup", ("addr", "addr"))),
+              ("IPGlob", "__getstate__"): ("py_iprange_getstate", (), ("_start", "_end"), "istate")}
+SRCB_VALUES = SRCB_VALUES + ("optstr", "istate")     # `optstr` = a slot holding a str, or unset; `istate` = IPRange.__getstate__()
+COQTY.update({"optstr": "(option string)", "istate": "(Z * Z * Z)"})
+SRCB_RESERVED |= set("py_iprange_init py_iprange_setstate py_iprange_getstate py_attr_get".split())
+UNIT_PREAMBLE["pysrc_nmap_gen.v"] = (
+    "(* the platform parsers nmap.py reaches through IPAddress(text) / IPNetwork(text): parameters, as in Model/Nmap.v *)\n"
+    "Section WithPlatform.\nVariable pton6 : string -> option Z.\nVariable ip_address : string -> outcome (Z * Z).\n")
+UNIT_POSTAMBLE = {"pysrc_nmap_gen.v": "\nEnd WithPlatform.\n", "pysrc_rfc1924_gen.v": "\nEnd WithFormatter.\n"}
+SRCB_VALUES = SRCB_VALUES + ("oaddr",)               # `oaddr` = what a generator of IPAddress objects yields: outcome (Z * Z)
+COQTY["oaddr"] = "(outcome (Z * Z))"
+SRCB_RESERVED |= set("pton6 ip_address py_ipaddress4_of_str py_ipnetwork_of_str py_iter_net py_gen_body py_gen_next yielded".split())
+
 
 class Untranslatable(Exception):
     pass
@@ -629,6 +766,7 @@ def bad(node, why, fn=None):
 
 def mangle(recv, name, prefix=""):
     name, _, variant = name.partition(":")          # "method:variant" = a specialisation of the method (see UNITS)
+    name = name.replace(".", "_")                    # "outer.inner" = a function defined inside `outer` (SRCB)
     return ("src_%s_%s" % (recv, name.strip("_").replace(".", "_")) if recv else "src_%s%s" % (prefix, name.replace(".", "_"))) + ("_" + variant if variant else "")
 
 
@@ -726,6 +864,13 @@ def is_value(t):
 
 def parse_type(s):
     return ("list", Cell(s[5:])) if s.startswith("list ") else ("set", Cell(s[4:])) if s.startswith("set ") else s
+
+
+_srcb_is_value = is_value
+
+
+def is_value(t):     # SRCB: the value types of FnB are first-class Coq values as well
+    return t in SRCB_VALUES or _srcb_is_value(t)
 
 
 def show(t):
@@ -886,6 +1031,14 @@ class Module:
 
     def function(self, name):
         """the module-level `def name`, which must be the only top-level binding of that name"""
+        if "." in name:                                  # SRCB: "outer.inner" = the one `def inner` in the body of `outer`
+            outer, _, inner = name.rpartition(".")
+            g = self.function(outer)
+            binds = [n for n in ast.walk(g) if n is not g and ((isinstance(n, (ast.FunctionDef, ast.ClassDef)) and n.name == inner)
+                     or (isinstance(n, ast.Name) and n.id == inner and isinstance(n.ctx, ast.Store)))]
+            if len(binds) != 1 or binds[0] not in g.body or not isinstance(binds[0], ast.FunctionDef) or binds[0].decorator_list:
+                bad(binds[-1] if binds else g, "%s is not bound exactly once, by a plain def directly in the body of %s" % (inner, outer))
+            return binds[0]
         binds = [n for st in self.tree.body
                  for n in ([st] if isinstance(st, (ast.FunctionDef, ast.ClassDef)) else ast.walk(st))
                  if (isinstance(n, (ast.FunctionDef, ast.ClassDef)) and n.name == name)
@@ -957,7 +1110,8 @@ class Fn:
         self.statevars, self.mutating, self.valued = [], False, True
         if recv in STATEVARS:
             self.f = self.state_as_locals(self.f)
-        self.f = self.prepare(self.f)                    # hook (identity here; CtorFn: constructor state as locals)
+        self.ptypes0 = ptypes                            # (the declared parameter types, for a prepare hook that needs them: FnB)
+        self.f = self.prepare(self.f)                    # hook (identity here; CtorFn: constructor state as locals; FnE, FnB: rewritten copies)
         a = self.f.args
         if a.vararg or a.kwarg or a.kwonlyargs or a.posonlyargs or (recv is not None and (not a.args or a.args[0].arg != "self")):
             bad(self.f, "unsupported signature")
@@ -4115,6 +4269,843 @@ for _u in SRCF_UNITS:
 MODULE_HOOK["pysrc_euib_gen.v"] = srcf_module_hook
 
 
+# ---- SRCB: text functions (netaddr/ip/glob.py, nmap.py, rfc1924.py).  A subclass, so that nothing changes for the other units.
+class FnB(Fn):
+    """Fn plus the constructs of the text functions (see "SRCB" at the end of the module docstring); used for UNIT_FNCLASS units"""
+
+    def __init__(self, tr, recv, name, ptypes):
+        self.nonempty, self.localfns, self.rangeloops, self.renamed, self.isgen, self.isctor, self.entered = [], {}, {}, {}, False, False, False
+        Fn.__init__(self, tr, recv, name, ptypes)
+
+    # ---- classes with STATEVARS (IPGlob): properties with setters, super() calls, constructors, slots that may be unset
+    def class_properties(self):
+        """{name: (getter, setter)} for the class-level `name = property(getter, setter, ..)` of the receiver class"""
+        out = {}
+        c = self.mod.classes.get(self.recv)
+        for st in (c.body if c is not None else []):
+            if (isinstance(st, ast.Assign) and len(st.targets) == 1 and isinstance(st.targets[0], ast.Name) and isinstance(st.value, ast.Call)
+                    and dotted(st.value.func) == "property" and len(st.value.args) >= 2 and not any(k.arg in ("fget", "fset") for k in st.value.keywords)
+                    and all(isinstance(a, ast.Name) for a in st.value.args[:2])):
+                names = [a.id for a in st.value.args[:2]]
+                if all(sum(isinstance(f, ast.FunctionDef) and f.name == n for f in c.body) == 1 for n in names):
+                    out[st.targets[0].id] = tuple(names)
+        return out
+
+    def pre_rewrite(self, f):
+        """a copy of method f in which `self.p = e` for a property p with a setter is `self.<setter>(e)`, a read of `self.p` is
+        `self.<getter>()`, `super(C, self).m(a..)` is the hand-model symbol of SRCB_SUPER (assigning the state attributes it sets),
+        and a read of a slot that may be unset is `__srcb_getattr(self._x)` (AttributeError when unset)"""
+        import copy
+        f, fn = copy.deepcopy(f), self
+        props = self.class_properties()
+        opt = {"self." + a for a, ty in STATEVARS[self.recv] if ty == "optstr"}
+        attr = lambda name, ctx, at: ast.copy_location(ast.Attribute(value=ast.copy_location(ast.Name(id="self", ctx=ast.Load()), at), attr=name, ctx=ctx), at)
+
+        def super_call(v):
+            if (isinstance(v, ast.Call) and isinstance(v.func, ast.Attribute) and isinstance(v.func.value, ast.Call)
+                    and dotted(v.func.value.func) == "super" and [dotted(a) for a in v.func.value.args] == [fn.recv, "self"]
+                    and not v.func.value.keywords and not v.keywords):
+                if (fn.recv, v.func.attr) not in SRCB_SUPER:
+                    bad(v, "super().%s is not in the translator's table SRCB_SUPER" % v.func.attr)
+                return SRCB_SUPER[(fn.recv, v.func.attr)]
+            return None
+
+        class T(ast.NodeTransformer):
+            def visit_Assign(self, st):
+                t = st.targets[0] if len(st.targets) == 1 else None
+                if isinstance(t, ast.Attribute) and dotted(t) == "self." + t.attr and t.attr in props:
+                    call = ast.Call(func=attr(props[t.attr][1], ast.Load(), st), args=[self.visit(st.value)], keywords=[])
+                    return ast.copy_location(ast.Expr(value=ast.copy_location(call, st)), st)
+                return self.generic_visit(st)
+
+            def visit_Expr(self, st):
+                sup = super_call(st.value)
+                if sup is not None and sup[1]:
+                    call = self.visit(st.value)
+                    tgt = ast.Tuple(elts=[attr(a, ast.Store(), st) for a in sup[1]], ctx=ast.Store())
+                    return ast.copy_location(ast.Assign(targets=[ast.copy_location(tgt, st)], value=call), st)
+                return self.generic_visit(st)
+
+            def visit_Call(self, n):
+                sup = super_call(n)
+                n = self.generic_visit(n)
+                if sup is not None:
+                    return ast.copy_location(ast.Call(func=ast.copy_location(ast.Name(id="__srcb_super_" + n.func.attr, ctx=ast.Load()), n),
+                                                      args=[attr(a, ast.Load(), n) for a in sup[2]] + n.args, keywords=[]), n)
+                return n
+
+            def visit_Attribute(self, n):
+                if isinstance(n.ctx, ast.Load) and dotted(n) == "self." + n.attr and n.attr in props:
+                    return ast.copy_location(ast.Call(func=attr(props[n.attr][0], ast.Load(), n), args=[], keywords=[]), n)
+                if isinstance(n.ctx, ast.Load) and dotted(n) in opt:
+                    return ast.copy_location(ast.Call(func=ast.copy_location(ast.Name(id="__srcb_getattr", ctx=ast.Load()), n), args=[n], keywords=[]), n)
+                return self.generic_visit(n)
+        return ast.fix_missing_locations(T().visit(f))
+
+    def method_mutates(self, name, seen=()):
+        """as Fn.method_mutates, on the rewritten method"""
+        r = self.mod.lookup(self.recv, name)
+        if r is None:
+            return False
+        paths = {"self." + a for a, _ in STATEVARS[self.recv]}
+        for n in ast.walk(self.pre_rewrite(r[1])):
+            if isinstance(n, ast.Attribute) and dotted(n) in paths and not isinstance(n.ctx, ast.Load):
+                return True
+            if (isinstance(n, ast.Call) and isinstance(n.func, ast.Attribute) and dotted(n.func) == "self." + n.func.attr
+                    and n.func.attr not in seen + (name,) and self.method_mutates(n.func.attr, seen + (name,))):
+                return True
+        return False
+
+    def state_as_locals(self, f):
+        self.isctor = self.pyname in SRCB_CONSTRUCTORS
+        return Fn.state_as_locals(self, self.pre_rewrite(f))
+
+    def prepare(self, f, ptypes=None):
+        """a copy of f in which `*xs` with a declared list type is an ordinary last parameter (the tuple of the arguments), and
+        -- for a generator function -- the items are collected: `yielded = []` first, `return yielded` last; `yield e` is read by
+        expr_stmt, `for x in g: yield x` by loop"""
+        import copy
+        ptypes = self.ptypes0 if ptypes is None else ptypes
+        f = copy.deepcopy(f)
+        if f.args.vararg is not None and f.args.vararg.arg in ptypes and ptypes[f.args.vararg.arg].startswith("list ") and not f.args.kwonlyargs:
+            f.args.args.append(f.args.vararg)
+            f.args.vararg = None
+        inner = {id(n) for d in ast.walk(f) if isinstance(d, (ast.FunctionDef, ast.Lambda)) and d is not f for n in ast.walk(d)}
+        ys = [n for n in ast.walk(f) if isinstance(n, (ast.Yield, ast.YieldFrom)) and id(n) not in inner]
+        if ys:
+            stmts = {id(st.value) for st in ast.walk(f) if isinstance(st, ast.Expr)}
+            if any(isinstance(n, ast.YieldFrom) or id(n) not in stmts or n.value is None for n in ys) or any(
+                    (isinstance(n, ast.Return) and id(n) not in inner) or (isinstance(n, ast.Name) and n.id == "yielded") for n in ast.walk(f)):
+                bad(f, "generator with `yield from`, a yield used as an expression, a bare yield, a return, or a name `yielded`")
+            self.isgen = True
+            k = 1 if (f.body and isinstance(f.body[0], ast.Expr) and isinstance(f.body[0].value, ast.Constant)
+                      and isinstance(f.body[0].value.value, str)) else 0
+            init = ast.Assign(targets=[ast.Name(id="yielded", ctx=ast.Store())], value=ast.List(elts=[], ctx=ast.Load()))
+            ret = ast.Return(value=ast.Name(id="yielded", ctx=ast.Load()))
+            ast.copy_location(init, f.body[k])
+            ast.copy_location(ret, f.body[-1])
+            ret.lineno = ret.end_lineno = f.end_lineno
+            f.body = f.body[:k] + [init] + f.body[k:] + [ret]
+            for st in ast.walk(f):                    # `yield e` -> `yielded.append(__srcb_yield(e))`: an assignment of `yielded`
+                if isinstance(st, ast.Expr) and isinstance(st.value, ast.Yield) and id(st.value) not in inner:
+                    y = st.value
+                    st.value = ast.copy_location(ast.Call(
+                        func=ast.copy_location(ast.Attribute(value=ast.copy_location(ast.Name(id="yielded", ctx=ast.Load()), y), attr="append", ctx=ast.Load()), y),
+                        args=[ast.copy_location(ast.Call(func=ast.copy_location(ast.Name(id="__srcb_yield", ctx=ast.Load()), y), args=[y.value], keywords=[]), y)],
+                        keywords=[]), y)
+            ast.fix_missing_locations(f)
+        return f
+
+    def finish(self):
+        Fn.finish(self)
+        if self.isgen:
+            # a generator function never raises when called: its value is the list of the outcomes of its `yield`s; an exception
+            # before the first yield is the one-element list [Raise e] (py_gen_body).  No raising construct may follow a yield
+            # (the items yielded before it would be lost): loops that yield are effect-free, and nothing after a yield can raise.
+            acc = self.used_name("yielded")
+            for L in self.loops:
+                if any(cn == acc for part in (L.params if L.iswhile else L.params[0] + L.params[1]) for cn, _ in [part]) and L.outcome:
+                    bad(L.node, "a loop of a generator that yields and can raise")
+            self.no_effect_after_yield(self.ir, acc, False)
+            self.gen_outcome, self.outcome = self.outcome, False
+            self.type = unparen(coqty(self.kind, self.f))
+
+    def used_name(self, name):
+        return [cn for cn, x in self.used.items() if x == name][0]
+
+    def no_effect_after_yield(self, ir, acc, seen):
+        if seen and (ir[0] in ("raise", "bind", "next", "try", "trypass", "tryb") or (ir[0] in ("ret", "lret") and ir[1] != "@loop" and ir[3])):
+            bad(self.f, "a generator that can raise after a yield (the items yielded so far would be lost)")
+        if ir[0] == "join":                          # the branches come before the binding of the joined variables
+            self.no_effect_after_yield(ir[2], acc, seen)
+            return self.no_effect_after_yield(ir[3], acc, seen or bool(re.search(r"\b%s\b" % re.escape(acc), ir[1])))
+        if ir[0] in ("let", "bind") and re.search(r"\b%s\b" % re.escape(acc), ir[1]) and not (ir[0] == "let" and ir[2] == "[]"):
+            seen = True
+        for sub in self.children(ir):
+            self.no_effect_after_yield(sub, acc, seen)
+
+    def text(self):
+        if not self.isgen:
+            return Fn.text(self)
+        ps = "".join(" (%s : %s)" % (cn, unparen(coqty(ty, self.f))) for cn, ty in self.params)
+        body = ("py_gen_body\n    (%s)" % self.render(self.ir, "     ", True, False)) if self.gen_outcome else self.render(self.ir, "  ", False, False)
+        return "".join(L.text(self) + "\n" for L in self.loops) + "(* %s: %s (a generator: the outcomes of its yields), lines %d-%d *)\nDefinition %s %s : %s :=\n  %s.\n" % (
+            self.mod.fn, self.what(), self.f.lineno, self.f.end_lineno, self.cname, ps.strip(), self.type, body)
+
+    def coqname(self, node, name):
+        if name in SRCB_RESERVED:
+            if self.used.setdefault(name + "_", name) != name:
+                bad(node, "identifier clash on %s_" % name)
+            return name + "_"
+        return Fn.coqname(self, node, name)
+
+    def typeof(self, node, env):
+        """the type of an expression, without keeping anything of its translation"""
+        snap, nfn = self.snapshot(), len(self.lrets)
+        try:
+            r = self.rhs(node, env)
+        finally:
+            self.restore(snap)
+            del self.lrets[nfn:]
+        return r[1] if r[0] == "out" else r[0]
+
+    @staticmethod
+    def charlit(node, what="character"):
+        """Coq literal of a one-character printable ASCII str constant"""
+        if not (isinstance(node, ast.Constant) and isinstance(node.value, str) and len(node.value) == 1 and 32 <= ord(node.value) < 127):
+            bad(node, "%s other than a one-character printable ASCII literal" % what)
+        return '"%s"%%char' % node.value.replace('"', '""')
+
+    @staticmethod
+    def strlit(text):
+        return '"%s"%%string' % text.replace('"', '""')
+
+    # ---- calls of definitions of other units; IPAddress objects passed where the callee applies IPNetwork() to its argument
+    def generated(self, node, recv, name, state, args):
+        if recv is None and self.mod.imports.get(name) in SRCB_ADDR_AS_NET:
+            args = [("net", "(py_net_of_addr %s)" % t) if ty == "addr" else (ty, t) for ty, t in args]
+        t = BY_OUT.get(SRCB_IN_UNIT.get((recv, name), ""))
+        if t is None or t is self.tr:
+            return Fn.generated(self, node, recv, name, state, args)
+        saved, self.tr = self.tr, t
+        try:
+            return Fn.generated(self, node, recv, name, state, args)
+        finally:
+            self.tr = saved
+
+    # ---- expressions
+    def rhs(self, node, env):
+        r = self.rhs_b(node, env)
+        if r is None:
+            r = Fn.rhs(self, node, env)
+        if r[0] == "out" and r[1] == "obj":          # an IPAddress object made by a translated definition: a first-class value here
+            r = ("out", "addr", r[2])
+        return r
+
+    def bool_(self, node, env):
+        if isinstance(node, ast.Name) and env.get(node.id, ("",))[0] == "str":
+            return "(py_str_nonempty %s)" % env[node.id][1]                 # truth value of a str
+        return Fn.bool_(self, node, env)
+
+    def is_not_name(self, node, env):
+        """`not s` for a str-valued name s -> s, else None"""
+        if (isinstance(node, ast.UnaryOp) and isinstance(node.op, ast.Not) and isinstance(node.operand, ast.Name)
+                and env.get(node.operand.id, ("",))[0] == "str"):
+            return node.operand.id
+        return None
+
+    def rhs_b(self, node, env):
+        if isinstance(node, ast.BoolOp):
+            # as Fn.rhs, and: in `not s or B or C`, B and C are evaluated only for a non-empty s (s[0] is defined there)
+            depth = len(self.nonempty)
+            first = self.bool_(node.values[0], env)
+            self.nohoist += 1
+            rest, prev = [], node.values[0]
+            try:
+                for x in node.values[1:]:
+                    if isinstance(node.op, ast.Or) and self.is_not_name(prev, env):
+                        self.nonempty.append(self.is_not_name(prev, env))
+                    rest.append(self.bool_(x, env))
+                    prev = x
+            finally:
+                self.nohoist -= 1
+                del self.nonempty[depth:]
+            self.size += 1
+            return ("bool", "(%s)" % (" && " if isinstance(node.op, ast.And) else " || ").join([first] + rest))
+        if isinstance(node, ast.Compare) and len(node.ops) == 1:
+            op, a, b = node.ops[0], node.left, node.comparators[0]
+            if isinstance(op, ast.Is) and isinstance(b, ast.Constant) and b.value is True and self.typeof(a, env) == "bool":
+                return ("bool", self.bool_(a, env))                          # `x is True` for a bool x
+            if isinstance(op, (ast.In, ast.NotIn)):
+                neg = "(negb %s)" if isinstance(op, ast.NotIn) else "%s"
+                if isinstance(a, ast.Constant) and isinstance(a.value, str):
+                    ty, t = self.ex(b, env)                                  # 'c' in s
+                    if ty != "str":
+                        bad(node, "'c' in %s" % show(ty))
+                    return ("bool", neg % ("(contains_char %s %s)" % (self.charlit(a, "substring test"), t)))
+                if isinstance(a, ast.Name) and env.get(a.id, ("",))[0] == "char":
+                    ty, t = self.ex(b, env)                                  # c in s for a character c
+                    if ty != "str":
+                        bad(node, "<character> in %s" % show(ty))
+                    return ("bool", neg % ("(contains_char %s %s)" % (env[a.id][1], t)))
+            if (isinstance(op, (ast.Eq, ast.NotEq)) and isinstance(a, ast.Subscript) and isinstance(a.value, ast.Name)
+                    and env.get(a.value.id, ("",))[0] == "str" and const_int(a.slice) == 0):
+                if a.value.id not in self.nonempty:                          # s[0] == 'c'
+                    bad(node, "s[0] where s is not known to be non-empty (no earlier operand `not s` of the same `or`)")
+                t = "(py_str_head_is %s %s)" % (self.charlit(b), env[a.value.id][1])
+                return ("bool", t if isinstance(op, ast.Eq) else "(negb %s)" % t)
+        if isinstance(node, ast.BinOp) and isinstance(node.op, ast.Mod) and isinstance(node.left, ast.Constant) and isinstance(node.left.value, str):
+            return self.format_(node, env)
+        if isinstance(node, ast.BinOp) and isinstance(node.op, (ast.Add, ast.Mult)):
+            ta, tb = self.typeof(node.left, env), self.typeof(node.right, env)
+            if isinstance(node.op, ast.Add) and ta == "str" and tb == "str":
+                (_, a), (_, b) = self.ex(node.left, env), self.ex(node.right, env)
+                return ("str", "(String.append %s %s)" % (a, b))
+            if isinstance(node.op, ast.Mult) and ta == "int" and tb == "str":
+                return ("str", "(py_str_times %s %s)" % (self.int_(node.left, env), self.charlit(node.right, "repeated string")))
+        if (isinstance(node, ast.Attribute) and isinstance(node.value, ast.Name) and env.get(node.value.id, ("",))[0] == "addr"
+                and node.attr == "version"):
+            x = env[node.value.id][1]                                        # the translated IPAddress.version
+            return self.generated(node, "IPAddress", "version", "(fst %s) (width (fst %s)) (snd %s)" % (x, x, x), [])
+        return None
+
+    def format_(self, node, env):
+        """'..%s..%d..' % (a, b): %s / %d of an int = its decimal text (fmt_d), %s of a str = the str"""
+        parts = re.split(r"(%.)", node.left.value)
+        args = list(node.right.elts) if isinstance(node.right, ast.Tuple) else [node.right]
+        out = []
+        for p in parts:
+            if p == "%%":
+                out.append(self.strlit("%"))
+            elif p in ("%s", "%d"):
+                if not args:
+                    bad(node, "format string with more specifiers than arguments")
+                ty, t = self.ex(args.pop(0), env)
+                if ty == "int":
+                    out.append("(fmt_d %s)" % t)
+                elif ty == "str" and p == "%s":
+                    out.append(t)
+                else:
+                    bad(node, "%s of %s" % (p, show(ty)))
+            elif p.startswith("%") and len(p) == 2:
+                bad(node, "format specifier %s" % p)
+            elif p:
+                if not all(32 <= ord(c) < 127 for c in p):
+                    bad(node, "format string with non-ASCII text")
+                out.append(self.strlit(p))
+        if args:
+            bad(node, "format string with fewer specifiers than arguments")
+        term = out[-1] if out else self.strlit("")
+        for x in reversed(out[:-1]):
+            term = "(String.append %s %s)" % (x, term)
+        return ("str", term)
+
+    def subscript(self, node, env):
+        sl = node.slice
+        dicts = SRCB_DICTS.get(self.tr.out, {})
+        if isinstance(node.value, ast.Name) and node.value.id in dicts and node.value.id not in env and self.mod.toplevel(node.value.id):
+            kty, vty, sym = dicts[node.value.id]                             # D[k] for a regenerated module-level dict: KeyError
+            ty, t = self.ex(sl, env)
+            if ty != kty:
+                bad(node, "%s[%s]" % (node.value.id, show(ty)))
+            return ("out", vty, "(%s %s)" % (sym, t))
+        if not isinstance(sl, ast.Slice):
+            vty = self.typeof(node.value, env)
+            if is_list(vty):                                                 # l[i]: IndexError modelled (py_index)
+                ty, t = self.ex(node.value, env)
+                elem = ty[1].find().t
+                if elem is None:
+                    bad(node, "subscript of a list whose element type is not known yet")
+                return ("out", elem, "(py_index %s %s)" % (t, self.int_(sl, env)))
+            if vty == "net" and const_int(sl) is not None:                   # cidr[k]: the translated IPNetwork.__getitem__ (int)
+                _, t = self.ex(node.value, env)
+                return self.generated(node, "IPNetwork", "__getitem__:int", "(nver %s) (width (nver %s)) (nval %s) (nplen %s)" % (t, t, t, t),
+                                      [("int", "%d" % const_int(sl) if const_int(sl) >= 0 else "(%d)" % const_int(sl))])
+        return Fn.subscript(self, node, env)
+
+    def listcomp(self, node, env):
+        """[e for x in xs] -> map (fun x => e) xs, or py_map_o (fun x => <e in outcome>) xs when e can raise (in order, first wins)"""
+        g = node.generators
+        if not (len(g) == 1 and not g[0].ifs and not g[0].is_async and isinstance(g[0].target, ast.Name) and g[0].target.id not in env):
+            return Fn.listcomp(self, node, env)
+        ty, t = self.listexpr(g[0].iter, env)
+        elem = ty[1].find().t if is_list(ty) else None
+        if elem is None:
+            bad(node, "comprehension over %s" % show(ty))
+        x = g[0].target.id
+        if x == "_":
+            cn, lenv = self.fresh(), dict(env)
+            lenv["_"] = (elem, cn)
+        else:
+            cn, lenv = self.bind_local(g[0].target, x, elem, env, g[0].iter)
+        saved, self.pre, nh, self.nohoist = self.pre, [], self.nohoist, 0
+        try:
+            r = self.rhs(node.elt, lenv)
+            inner = self.pre
+        finally:
+            self.pre, self.nohoist = saved, nh
+        kind = r[1] if r[0] == "out" else r[0]
+        if not is_value(kind):
+            bad(node, "comprehension element of kind %s" % show(kind))
+        if r[0] != "out" and not inner:
+            return (("list", Cell(kind)), "(map (fun %s => %s) %s)" % (cn, r[1], t))
+        ir = self.wrap(inner, ("ret", kind, r[2] if r[0] == "out" else r[1], r[0] == "out"))
+        return ("out", ("list", Cell(kind)), "(py_map_o (fun %s => %s) %s)" % (cn, self.render(ir, "      ", True), t))
+
+    def call(self, node, env):
+        r = self.call_b(node, env)
+        return r if r is not None else Fn.call(self, node, env)
+
+    def call_b(self, node, env):
+        f = node.func
+        if (isinstance(f, ast.Name) and len(node.args) == 1 and isinstance(node.args[0], ast.Starred) and not node.keywords
+                and f.id not in env and self.tr.owner_of(f.id) is not None):
+            r = self.rhs(node.args[0].value, env)                    # f(*g(x)): the components of g's tuple are f's arguments
+            ty = r[1] if r[0] == "out" else r[0]
+            if not (isinstance(ty, tuple) and ty[0] == "tup"):
+                bad(node, "f(*e) for e of kind %s" % show(ty))
+            hs = [self.fresh() for _ in ty[1]]
+            self.hoist(node, ("bind", pattern(hs), r[2] if r[0] == "out" else "(Ok %s)" % r[1]))
+            return self.generated(node, None, f.id, "", list(zip(ty[1], hs)))
+        if isinstance(f, ast.Attribute) and f.attr == "split" and not node.keywords and len(node.args) in (1, 2) and not (
+                isinstance(f.value, ast.Name) and f.value.id not in env):
+            if len(node.args) == 2 and const_int(node.args[1]) != 1:
+                bad(node, "s.split(c, n) with n other than the literal 1")
+            ty, t = self.ex(f.value, env)                                    # s.split('c') / s.split('c', 1)
+            if ty != "str":
+                bad(node, "split() on %s" % show(ty))
+            return (("list", Cell("str")), "(%s %s %s)" % ("split" if len(node.args) == 1 else "split1", self.charlit(node.args[0], "separator"), t))
+        if (isinstance(f, ast.Attribute) and f.attr == "join" and isinstance(f.value, ast.Constant) and isinstance(f.value.value, str)
+                and all(32 <= ord(c) < 127 for c in f.value.value) and len(node.args) == 1 and not node.keywords):
+            ty, t = self.listexpr(node.args[0], env)                         # 'sep'.join(l)
+            if not (is_list(ty) and ty[1].find().t == "str"):
+                bad(node, "join() of %s" % show(ty))
+            return ("str", "(join %s %s)" % (self.strlit(f.value.value), t))
+        if self.builtin_call(node, "int", env, 1) or self.builtin_call(node, "str", env, 1):
+            ty = self.typeof(node.args[0], env)
+            if f.id == "int" and ty == "str":
+                return ("out", "int", "(py_int_o 10 %s)" % self.ex(node.args[0], env)[1])      # int(s): ValueError
+            if f.id == "int" and ty == "addr":
+                x = self.ex(node.args[0], env)[1]
+                return self.generated(node, "IPAddress", "__int__", "(fst %s) (width (fst %s)) (snd %s)" % (x, x, x), [])
+            if f.id == "str" and ty == "int":
+                return ("str", "(fmt_d %s)" % self.int_(node.args[0], env))                   # str(n) = '%d' % n
+            if f.id == "str" and ty == "str":
+                return self.ex(node.args[0], env)
+            if f.id == "str" and ty == "addr" and self.tr.out in SRCB_ADDR_STR:
+                return (SRCB_ADDR_STR[self.tr.out][0], SRCB_ADDR_STR[self.tr.out][1] % self.ex(node.args[0], env)[1])
+            if f.id == "str" and ty == "addr":
+                return ("out", "str", "(py_addr_str %s)" % self.ex(node.args[0], env)[1])      # str(ip): hand model (SrcPreludeGlob)
+            if f.id == "str":
+                bad(node, "str() of %s" % show(ty))
+        if self.builtin_call(node, "any", env, 1) and isinstance(node.args[0], ast.GeneratorExp):
+            g = node.args[0].generators                                      # any(<bool> for c in s) over the characters of a str
+            if not (len(g) == 1 and not g[0].ifs and not g[0].is_async and isinstance(g[0].target, ast.Name) and g[0].target.id not in env):
+                bad(node, "any() over something other than one plain generator with a fresh variable")
+            ty, t = self.ex(g[0].iter, env)
+            if ty != "str":
+                bad(node, "any() over %s" % show(ty))
+            cn, lenv = self.bind_local(g[0].target, g[0].target.id, "char", env, g[0].iter)
+            self.nohoist += 1
+            try:
+                c = self.bool_(node.args[0].elt, lenv)
+            finally:
+                self.nohoist -= 1
+            return ("bool", "(existsb (fun %s => %s) (chars %s))" % (cn, c, t))
+        if isinstance(f, ast.Name) and f.id.startswith("__srcb_super_") and (self.recv, f.id[13:]) in SRCB_SUPER:
+            sym, _, _, rty = SRCB_SUPER[(self.recv, f.id[13:])]              # super().m(..): the hand model of the IPRange method
+            args = [self.ex(x, env) for x in node.args]
+            if any(not is_value(ty) for ty, _ in args):
+                bad(node, "argument of super().%s" % f.id[13:])
+            term = "(%s)" % " ".join([sym] + [t for _, t in args])
+            return (rty, term) if rty == "istate" else ("out", rty, term)
+        if isinstance(f, ast.Name) and f.id == "__srcb_getattr" and len(node.args) == 1:
+            ty, t = self.ex(node.args[0], env)                               # a slot that may be unset: AttributeError
+            if ty != "optstr":
+                bad(node, "read of a slot of kind %s" % show(ty))
+            return ("out", "str", "(py_attr_get %s)" % t)
+        if self.builtin_call(node, "ord", env, 1) and self.typeof(node.args[0], env) == "char":
+            return ("int", "(code %s)" % self.ex(node.args[0], env)[1])      # ord(c)
+        if self.builtin_call(node, "chr", env, 1):
+            return ("out", "str", "(py_chr_o %s)" % self.int_(node.args[0], env))   # chr(i), 0 <= i < 256 (else Unsupported)
+        if self.builtin_call(node, "range", env, 1) or self.builtin_call(node, "range", env, 2):
+            a = [self.int_(x, env) for x in node.args]                       # range(..) consumed as a list
+            return (("list", Cell("int")), "(py_zrange %s %s)" % (("0", a[0]) if len(a) == 1 else (a[0], a[1])))
+        if self.builtin_call(node, "list", env, 1) and self.typeof(node.args[0], env) == "str":
+            return (("list", Cell("str")), "(py_str_list %s)" % self.ex(node.args[0], env)[1])      # list(s): its characters
+        if self.builtin_call(node, "set", env, 0):
+            return (("set", Cell()), "[]")                                   # set(): the empty set (element type found later)
+        if self.builtin_call(node, "sorted", env, 1):
+            ty, t = self.ex(node.args[0], env)                               # sorted(s) for a set / list of ints: ascending
+            if not ((is_set(ty) or is_list(ty)) and ty[1].find().t == "int"):
+                bad(node, "sorted() of %s without a key" % show(ty))
+            return (("list", Cell("int")), "(py_sorted_asc %s)" % t)
+        if isinstance(f, ast.Name) and f.id == "__srcb_range" and not node.keywords and len(node.args) in (1, 2):
+            a = [self.int_(x, env) for x in node.args]                       # (made by loop() from range(..) / _iter_range(..))
+            return (("list", Cell("int")), "(py_zrange %s %s)" % (("0", a[0]) if len(a) == 1 else (a[0], a[1])))
+        if isinstance(f, ast.Name) and f.id in self.localfns and f.id not in env:
+            if node.keywords or node.lineno <= self.localfns[f.id][1]:
+                bad(node, "call of the local function %s with keywords, or before its definition" % f.id)
+            return self.generated(node, None, self.localfns[f.id][0], "", [self.ex(x, env) for x in node.args])
+        if (isinstance(f, ast.Name) and f.id in SRCB_CTOR_KIND and f.id not in env and not node.keywords
+                and self.mod.imports.get(f.id) == "netaddr.ip." + f.id):
+            tys = [self.typeof(x, env) for x in node.args]
+            if f.id == "IPAddress" and tys == ["addr"]:
+                return self.ex(node.args[0], env)                            # IPAddress(ip): the copy constructor = the same value
+            key = (f.id,) + tuple(("%d" % const_int(x)) if (ty == "int" and const_int(x) is not None) else ty for x, ty in zip(node.args, tys))
+            sym = SRCB_CTOR.get(self.tr.out, {}).get(key)
+            if sym is not None:                                              # a parser on text: hand-model symbol / platform parameter
+                return ("out", SRCB_CTOR_KIND[f.id], "(%s)" % " ".join([sym] + [self.ex(x, env)[1] for x, kk in zip(node.args, key[1:]) if not kk.isdigit()]))
+            if f.id == "IPRange" or "str" in tys or "addr" in tys or self.tr.out in SRCB_CTOR and key[1:] == ("int",):
+                bad(node, "%s(%s)" % (f.id, ", ".join(show(x) for x in tys)))
+        if (isinstance(f, ast.Name) and f.id == "_iter_next" and f.id not in env and len(node.args) == 1 and not node.keywords
+                and self.mod.imports.get("_iter_next") == "netaddr.compat._iter_next" and isinstance(node.args[0], ast.Call)):
+            ty, t = self.ex(node.args[0], env)                               # next() of a generator made right here (and dropped)
+            if not (is_list(ty) and ty[1].find().t == "oaddr"):
+                bad(node, "_iter_next of %s" % show(ty))
+            return ("out", "addr", "(py_gen_next %s)" % t)
+        return None
+
+    # ---- statements
+    def assign(self, s, env, go):
+        tgt = s.targets[0] if isinstance(s, ast.Assign) and len(s.targets) == 1 else None
+        if (isinstance(tgt, ast.Name) and self.recv in STATEVARS and ("optstr" in [ty for a, ty in STATEVARS[self.recv] if "self" + a == tgt.id])
+                and self.typeof(s.value, env) == "str"):
+            ty, t = self.ex(s.value, env)                                    # self._x = <str>: the slot is set
+            pre = self.take_pre()
+            cn, env = self.bind_local(tgt, tgt.id, "optstr", env, s.value)
+            return self.wrap(pre, ("let", cn, "(Some %s)" % t, go(env)))
+        if isinstance(tgt, ast.Tuple) and len(tgt.elts) == 2 and all(isinstance(x, ast.Name) for x in tgt.elts):
+            ty = self.typeof(s.value, env)
+            if is_list(ty):                                                  # a, b = <list>: ValueError unless it has two elements
+                r = self.rhs(s.value, env)
+                pre = self.take_pre()
+                elem = (r[1] if r[0] == "out" else r[0])[1].find().t
+                if elem is None:
+                    bad(s, "unpacking of a list whose element type is not known")
+                names = []
+                for x in tgt.elts:
+                    if x.id == "_":
+                        env = dict(env)
+                        env.pop("_", None)
+                        names.append("_")
+                        continue
+                    cn, env = self.bind_local(x, x.id, elem, env, s.value)
+                    names.append(cn)
+                if r[0] == "out":
+                    h = self.fresh()
+                    return self.wrap(pre, ("bind", h, r[2], ("bind", pattern(names), "(py_unpack2 %s)" % h, go(env))))
+                return self.wrap(pre, ("bind", pattern(names), "(py_unpack2 %s)" % r[1], go(env)))
+        return Fn.assign(self, s, env, go)
+
+    @staticmethod
+    def yield_value(st):
+        """e of the statement `yield e` (rewritten by prepare to `yielded.append(__srcb_yield(e))`), else None"""
+        v = st.value if isinstance(st, ast.Expr) else None
+        if (isinstance(v, ast.Call) and dotted(v.func) == "yielded.append" and len(v.args) == 1 and isinstance(v.args[0], ast.Call)
+                and dotted(v.args[0].func) == "__srcb_yield"):
+            return v.args[0].args[0]
+        return None
+
+    def expr_stmt(self, s, env, go):
+        v = s.value
+        if (isinstance(v, ast.Call) and isinstance(v.func, ast.Attribute) and v.func.attr == "add" and isinstance(v.func.value, ast.Name)
+                and is_set(env.get(v.func.value.id, ("",))[0]) and len(v.args) == 1 and not v.keywords):
+            l = v.func.value.id                                          # s.add(e): nothing happens when an equal element is present
+            lty, lt = env[l]
+            ty, t = self.ex(v.args[0], env)
+            unify(s, ("set", Cell(ty)), lty, "added element")
+            pre = self.take_pre()
+            cn, env = self.bind_local(s, l, lty, env)
+            if self.tainted(v.args[0], env):
+                env["@taint"] = env["@taint"] | {l}
+            return self.wrap(pre, ("let", cn, "(py_set_add %s %s %s)" % (self.elem_eqb(s, lty), lt, t), go(env)))
+        if self.isgen and self.yield_value(s) is not None:               # yield e: the OUTCOME of e goes to the end of `yielded`
+            saved, self.pre = self.pre, []
+            try:
+                r = self.rhs(self.yield_value(s), env)
+                inner = self.pre
+            finally:
+                self.pre = saved
+            kind = r[1] if r[0] == "out" else r[0]
+            if kind != "addr":
+                bad(s, "yield of %s (only IPAddress objects)" % show(kind))
+            ir = self.wrap(inner, ("ret", kind, r[2] if r[0] == "out" else r[1], r[0] == "out"))
+            t = r[2] if (r[0] == "out" and not inner) else "(%s)" % self.render(ir, "      ", True)
+            lty, lt = env["yielded"]
+            unify(s, ("list", Cell("oaddr")), lty, "yielded item")
+            cn, env = self.bind_local(s, "yielded", lty, env)
+            return ("let", cn, "(%s ++ [%s])" % (lt, t), go(env))
+        if isinstance(v, ast.Call) and dotted(v.func) == "_iter_next":
+            r = self.rhs(v, env)                                             # _iter_next(g) for its exception only
+            pre = self.take_pre()
+            return self.wrap(pre, ("bind", "_", r[2], go(env)))
+        return Fn.expr_stmt(self, s, env, go)
+
+    def block(self, stmts, env, k, after):
+        if not self.entered:
+            self.entered = True
+            if self.isctor:          # a constructor: no incoming state; slots that may be unset are None, the others unbound
+                env = dict(env)
+                for a, ty in STATEVARS[self.recv]:
+                    if ty == "optstr":
+                        env["self" + a] = (ty, "None")
+                    else:
+                        env.pop("self" + a)
+                self.statevars = []
+        if stmts and isinstance(stmts[0], ast.FunctionDef):
+            return self.localdef(stmts[0], list(stmts[1:]), env, k, after)
+        if stmts and isinstance(stmts[0], ast.Try) and self.is_try_b(stmts[0]):
+            return self.try_b(stmts[0], list(stmts[1:]), env, k, after)
+        return Fn.block(self, stmts, env, k, after)
+
+    def localdef(self, s, rest, env, k, after):
+        """`def g(..): ..` directly in the body of f, with no free variable that is a local of f: the definition
+        src_f_g (entry "f.g" of the unit's table gives its parameter types); g(..) below it calls that definition"""
+        key = "%s.%s" % (self.name, s.name)
+        if s not in self.f.body or s.decorator_list or not any(w[:2] == (None, key) for w in self.tr.specs):
+            bad(s, "local function %s: not directly in the body of %s, decorated, or without an entry %s in the unit's table" % (s.name, self.name, key))
+        outer = {a.arg for a in self.f.args.args} | {n.id for st in self.f.body if st is not s for n in ast.walk(st)
+                                                      if isinstance(n, ast.Name) and isinstance(n.ctx, ast.Store)}
+        if any(isinstance(n, ast.Name) and n.id in outer | {s.name} and isinstance(n.ctx, ast.Load) for n in ast.walk(s)) or s.name in outer or any(
+                isinstance(n, (ast.Global, ast.Nonlocal, ast.Lambda, ast.Yield, ast.YieldFrom)) or (isinstance(n, ast.FunctionDef) and n is not s)
+                for n in ast.walk(s)):
+            bad(s, "local function %s reads a local of %s (a closure), is rebound, or is not a plain function" % (s.name, self.name))
+        self.localfns[s.name] = (key, s.end_lineno)
+        return self.block(rest, env, k, after)
+
+    @staticmethod
+    def exc_names(h):
+        t = h.type
+        names = [t] if isinstance(t, ast.Name) else list(t.elts) if isinstance(t, ast.Tuple) else []
+        return [n.id for n in names if isinstance(n, ast.Name)] if names and all(isinstance(n, ast.Name) for n in names) else None
+
+    def is_try_b(self, s):
+        """try: body / except E | (E1, E2, ..): handler -- every form the base class does not read"""
+        if len(s.handlers) != 1 or s.orelse or s.finalbody or self.exc_names(s.handlers[0]) is None:
+            return False
+        h = s.handlers[0]
+        if any(e not in EXN for e in self.exc_names(h)):
+            return False
+        if isinstance(h.type, ast.Name) and len(h.body) == 1 and isinstance(h.body[0], ast.Raise):
+            return False                                       # base: py_except
+        if isinstance(h.type, ast.Name) and len(h.body) == 1 and isinstance(h.body[0], ast.Pass):
+            return False                                       # base: py_except_pass
+        return True
+
+    @staticmethod
+    def cannot_raise(st):
+        """`l.append(<name or literal>)` / `x = <name or literal>`"""
+        simple = lambda e: isinstance(e, (ast.Name, ast.Constant))
+        if isinstance(st, ast.Expr) and isinstance(st.value, ast.Call) and isinstance(st.value.func, ast.Attribute):
+            c = st.value
+            return c.func.attr == "append" and isinstance(c.func.value, ast.Name) and len(c.args) == 1 and not c.keywords and simple(c.args[0])
+        return isinstance(st, ast.Assign) and len(st.targets) == 1 and isinstance(st.targets[0], ast.Name) and simple(st.value)
+
+    def try_b(self, s, rest, env, k, after):
+        """try: body / except (E1, ..): handler  ->  do h <- py_try [E1; ..] (body) (handler); match h with inl r => return r |
+        inr <variables> => rest end  (without the match when neither returns).  Body and handler answer inl <returned value> or
+        inr <the variables assigned in them and read later>.  The handler starts from the variables as they were at `try`: a
+        variable the body assigns is unbound in the handler unless every statement of the body from its first assignment on is
+        one that cannot raise (cannot_raise)."""
+        h = s.handlers[0]
+        excs = self.exc_names(h)
+        if env["@mut"] or any(e in env or (self.mod.toplevel(e) and e not in self.mod.imports) for e in excs):
+            bad(s, "try after a state assignment, or a rebound exception class")
+        if any(isinstance(n, (ast.Break, ast.Continue)) for st in s.body + h.body for n in ast.walk(st)):
+            bad(s, "break / continue inside try")
+        if h.name and any(isinstance(n, ast.Name) and n.id == h.name for st in h.body + rest + after for n in ast.walk(st)):
+            bad(s, "exception variable %s is used" % h.name)
+        has_ret = any(isinstance(n, ast.Return) for st in s.body + h.body for n in ast.walk(st))
+        if has_ret and env["@break"] is not None and not env["@lret"]:
+            bad(s, "return inside a nested loop")
+        later = loaded_names(rest + after)
+        names = in_order([(i, 0, x) for i, x in enumerate(assigned_names(s.body) + assigned_names(h.body))])
+        unsafe = set()
+        for i, st in enumerate(s.body):
+            if not all(self.cannot_raise(x) for x in s.body[i:]):
+                unsafe |= set(assigned_names([st]))
+        nl = len(self.lrets)
+        ends = []
+
+        def end(e):
+            ends.append(e)
+            return ("jret", e)
+
+        def no(e):
+            bad(s, "break / continue inside try")
+        benv = dict(env)
+        if has_ret:
+            benv["@break"], benv["@continue"], benv["@lret"] = no, no, True      # `return` inside: answers inl
+        body = self.block(s.body, benv, end, rest + after)
+        henv = {key: val for key, val in benv.items() if key not in unsafe}
+        hand = self.block(h.body, henv, end, rest + after)
+        exported = [x for x in names if x in later and ends and all(x in e and is_value(e[x][0]) for e in ends)]
+        for key, val in env.items():                # compile-time bindings must come out unchanged, or be dead
+            if not key.startswith("@") and key not in exported and not is_value(val[0]) and any(e.get(key) != val for e in ends):
+                if key in later:
+                    bad(s, "%s is rebound inside try to something that is no Coq value and read afterwards" % key)
+        env = dict(env)
+        for x in names:
+            env.pop(x, None)
+        cns = []
+        for x in exported:
+            for e in ends[1:]:
+                unify(s, e[x][0], ends[0][x][0], "ends of the try statement")
+            cn = self.coqname(s, x)
+            cns.append(cn)
+            env[x] = (ends[0][x][0], cn)
+        env["@taint"] = frozenset().union(env["@taint"], *[e["@taint"] for e in ends]) - (set(names) - set(exported))
+
+        def close(ir):
+            if ir[0] == "jret" and isinstance(ir[1], dict):
+                t = tuple_term([ir[1][x][1] for x in exported])
+                return ("jret", "(inr %s)" % t if has_ret else t)
+            return tuple(close(x) if isinstance(x, tuple) and x and isinstance(x[0], str) else
+                         [(kd, ns, close(sub)) for kd, ns, sub in x] if isinstance(x, list) else x for x in ir)
+        hn = rn = retleaf = None
+        if has_ret:
+            kinds = self.lrets[nl:]
+            if not kinds:
+                bad(s, "try with a return that is never reached")
+            for kd in kinds[1:]:
+                unify(s, kd, kinds[0], "return values")
+            hn, rn = self.fresh(), self.fresh()
+            retleaf = self.leaf(env, kinds[0], rn)
+        return ("tryb", tuple(excs), close(body), close(hand), hn, rn, pattern(cns), retleaf, self.block(rest, env, k, after))
+
+    def if_(self, s, rest, env, k, after):
+        """as Fn.if_; `if A and B: X else: Y` whose B can raise is read as `if A: (if B: X else: Y) else: Y` (same for `or`)"""
+        snap, nl = self.snapshot(), len(self.lrets)
+        try:
+            return Fn.if_(self, s, rest, env, k, after)
+        except Untranslatable as e:
+            if "can raise under and/or" not in str(e) or not isinstance(s.test, ast.BoolOp):
+                raise
+        self.restore(snap)
+        del self.lrets[nl:]
+        a, b = s.test.values[0], (s.test.values[1] if len(s.test.values) == 2 else ast.copy_location(
+            ast.BoolOp(op=s.test.op, values=s.test.values[1:]), s.test))
+        mk = lambda test, body, orelse: ast.copy_location(ast.If(test=test, body=body, orelse=orelse), s)
+        if isinstance(s.test.op, ast.And):
+            s2 = mk(a, [mk(b, s.body, s.orelse)], s.orelse)
+        else:
+            s2 = mk(a, s.body, [mk(b, s.body, s.orelse)])
+        return self.if_(s2, rest, env, k, after)
+
+    @staticmethod
+    def read_first(stmts, x):
+        """(may x be read before it is written when the statements run in this order?, is x written on every path through them?)
+        -- a conservative reading of structured code: loops may run zero times, try / with / unknown statements write nothing
+        and read whatever they mention, break / continue count as a read"""
+        loads = lambda n: any(isinstance(m, ast.Name) and m.id == x and isinstance(m.ctx, ast.Load) for m in ast.walk(n)) if n is not None else False
+        stores = lambda n: any(isinstance(m, ast.Name) and m.id == x and isinstance(m.ctx, ast.Store) for m in ast.walk(n))
+        for st in stmts:
+            if isinstance(st, (ast.Assign, ast.AugAssign, ast.Expr, ast.Pass)):
+                if loads(st) or (isinstance(st, ast.AugAssign) and stores(st.target)):
+                    return True, False
+                if isinstance(st, ast.Assign) and all(isinstance(t, (ast.Name, ast.Tuple)) for t in st.targets) and stores(st):
+                    return False, True
+            elif isinstance(st, (ast.Return, ast.Raise)):
+                return loads(st), True
+            elif isinstance(st, ast.If):
+                if loads(st.test):
+                    return True, False
+                (r1, w1), (r2, w2) = FnB.read_first(st.body, x), FnB.read_first(st.orelse, x)
+                if r1 or r2:
+                    return True, False
+                if w1 and w2:
+                    return False, True
+            elif isinstance(st, (ast.For, ast.While)):
+                if loads(st.iter if isinstance(st, ast.For) else st.test) or st.orelse:
+                    return True, False
+                if not (isinstance(st, ast.For) and stores(st.target)) and FnB.read_first(st.body, x)[0]:
+                    return True, False
+            elif loads(st) or isinstance(st, (ast.Break, ast.Continue)) or any(isinstance(m, (ast.Break, ast.Continue)) for m in ast.walk(st)):
+                return True, False
+        return False, False
+
+    def loop(self, s, rest, env, k, after):
+        """as Fn.loop; `for i in range(n)` / `range(a, b)` / `_iter_range(a, b)` whose variable IS read runs over the list
+        py_zrange a b (the bounds are evaluated once, before the loop).  A loop variable that is mentioned after the loop but
+        is dead there (read_first: always written before it is read again) is renamed inside the loop (x -> x_for)."""
+        tg = s.target.elts[1] if (isinstance(s, ast.For) and isinstance(s.target, ast.Tuple) and len(s.target.elts) == 2) else getattr(s, "target", None)
+        if (isinstance(s, ast.For) and isinstance(tg, ast.Name) and ("rebound", id(s)) not in self.renamed and any(
+                isinstance(n, ast.Name) and n.id == tg.id and isinstance(n.ctx, ast.Store) for st in s.body for n in ast.walk(st))):
+            # the loop variable x is assigned in the body: the loop runs over x_for, the body starts with `x = x_for`
+            x = tg.id
+            if id(s) not in self.renamed:
+                if x in env or any(isinstance(n, ast.Name) and n.id == x + "_for" for n in ast.walk(self.f)) or self.read_first(
+                        [st for st in rest + after if st is not s], x)[0]:
+                    bad(s, "loop variable %s is rebound in the body and bound before / read after the loop" % x)
+                import copy
+                s2 = copy.copy(s)
+                s2.target = copy.deepcopy(s.target)
+                t2 = s2.target.elts[1] if isinstance(s2.target, ast.Tuple) else s2.target
+                t2.id = x + "_for"
+                first = ast.copy_location(ast.Assign(targets=[ast.copy_location(ast.Name(id=x, ctx=ast.Store()), tg)],
+                                                     value=ast.copy_location(ast.Name(id=x + "_for", ctx=ast.Load()), tg)), s.body[0])
+                s2.body = [first] + list(s.body)
+                self.loopno[id(s2)] = self.loopno[id(s)]
+                self.renamed[id(s)] = s2
+                self.renamed[("rebound", id(s2))] = True
+            return self.loop(self.renamed[id(s)], rest, env, k, after)
+        if (self.isgen and isinstance(s, ast.For) and isinstance(s.target, ast.Name) and not s.orelse and len(s.body) == 1
+                and isinstance(self.yield_value(s.body[0]), ast.Name)
+                and self.yield_value(s.body[0]).id == s.target.id and s.target.id not in env and "yielded" in env
+                and not any(isinstance(n, ast.Name) and n.id == s.target.id and isinstance(n.ctx, ast.Load)
+                            and not any(n is m for m in ast.walk(s)) for st in rest + after for n in ast.walk(st))):
+            ty, t = self.ex(s.iter, env)                     # for x in g: yield x -- every outcome of g goes to the end of `yielded`
+            pre = self.take_pre()
+            if ty == "net":
+                t = "(py_iter_net %s)" % t                   # iterating an IPNetwork (IPListMixin.__iter__): hand model
+            elif not (is_list(ty) and ty[1].find().t == "oaddr"):
+                bad(s, "`for x in e: yield x` over %s" % show(ty))
+            lty, lt = env["yielded"]
+            unify(s, ("list", Cell("oaddr")), lty, "yielded item")
+            cn, env = self.bind_local(s, "yielded", lty, env)
+            return self.wrap(pre, ("let", cn, "(%s ++ %s)" % (lt, t), self.block(rest, env, k, after)))
+        if (isinstance(s, ast.For) and isinstance(s.target, ast.Name) and id(s) not in self.renamed.values() and any(
+                isinstance(n, ast.Name) and n.id == s.target.id and isinstance(n.ctx, ast.Load)
+                and not any(n is m for st in s.body for m in ast.walk(st)) for st in rest + after if st is not s for n in ast.walk(st))):
+            x = s.target.id
+            if id(s) not in self.renamed:
+                if self.read_first([st for st in rest + after], x)[0] or any(
+                        isinstance(n, ast.Name) and n.id == x + "_for" for n in ast.walk(self.f)):
+                    bad(s, "loop variable %s read after the loop" % x)
+                import copy
+                s2 = copy.deepcopy(s)
+                for a, b in zip(ast.walk(s), ast.walk(s2)):
+                    if isinstance(a, (ast.For, ast.While)):
+                        self.loopno[id(b)] = self.loopno[id(a)]
+                    if isinstance(b, ast.Name) and b.id == x:
+                        b.id = x + "_for"
+                self.renamed[id(s)] = s2
+                self.renamed[("made", id(s2))] = id(s2)
+            return self.loop(self.renamed[id(s)], rest, env, k, after)
+        if isinstance(s, ast.For) and isinstance(s.target, ast.Name) and isinstance(s.iter, ast.Call) and isinstance(s.iter.func, ast.Name):
+            fname = s.iter.func.id
+            isrange = (fname == "range" and self.builtin_call(s.iter, "range", env, len(s.iter.args))) or (
+                fname == "_iter_range" and fname not in env and not s.iter.keywords
+                and self.mod.imports.get("_iter_range") == "netaddr.compat._iter_range" and compat_ok("_iter_range"))
+            if isrange and len(s.iter.args) in (1, 2) and s.target.id in loaded_names(s.body):
+                if id(s) not in self.rangeloops:
+                    it = ast.copy_location(ast.Call(func=ast.copy_location(ast.Name(id="__srcb_range", ctx=ast.Load()), s.iter),
+                                                    args=s.iter.args, keywords=[]), s.iter)
+                    s2 = ast.copy_location(ast.For(target=s.target, iter=it, body=s.body, orelse=s.orelse), s)
+                    s2.end_lineno = s.end_lineno
+                    self.loopno[id(s2)] = self.loopno[id(s)]
+                    self.rangeloops[id(s)] = s2
+                return Fn.loop(self, self.rangeloops[id(s)], rest, env, k, after)
+        return Fn.loop(self, s, rest, env, k, after)
+
+    # ---- IR
+    @staticmethod
+    def children(ir):
+        if ir[0] == "tryb":
+            return [ir[2], ir[3]] + ([ir[7]] if ir[7] is not None else []) + [ir[8]]
+        return Fn.children(ir)
+
+    def effects(self, ir):
+        return ir[0] == "tryb" or Fn.effects(self, ir)
+
+    def render(self, ir, ind, oc, optional=False):
+        if ir[0] != "tryb":
+            return Fn.render(self, ir, ind, oc, optional)
+        _, excs, body, hand, hn, rn, pat, retleaf, rest = ir
+        i2 = ind + "  "
+        head = "py_try [%s]\n%s  (%s)\n%s  (%s);\n" % ("; ".join(excs), ind, self.render(body, ind + "   ", True, False), ind,
+                                                   self.render(hand, ind + "   ", True, False))
+        if retleaf is None:
+            return "do %s <- %s%s%s" % (pat, head, ind, self.render(rest, ind, oc, optional))
+        sub = lambda x: self.render(x, i2, oc, optional) if x[0] in ("ret", "raise", "jret", "lret") else "(" + self.render(x, i2 + " ", oc, optional) + ")"
+        return "do %s <- %smatch %s with\n%s| inl %s => %s\n%s| inr %s =>\n%s%s\n%send" % (
+            hn, head + ind, hn, ind, rn, self.render(retleaf, i2, oc, optional), ind, pat, i2, sub(rest), ind)
+
+
+UNIT_FNCLASS.update({u[1]: FnB for u in SRCB_UNITS})
+
+
 BY_MODULE = {}      # dotted module name -> the first translator made for its file (filled by generate())
 
 # ---- SRCD: the units of CTOR_FN_UNITS are read by the subclass CtorFn of Fn (harness/gen/pysrc_ctor.py); every other unit by Fn
@@ -4178,7 +5169,7 @@ def fn_class(out):
     if out in CTOR_FN_UNITS:
         from harness.gen import pysrc_ctor
         return pysrc_ctor.CtorFn
-    return FN_CLASS.get(out, Fn)      # (SRCE, SRCF) a unit may use a subclass of Fn
+    return FN_CLASS.get(out) or UNIT_FNCLASS.get(out, Fn)      # (SRCE, SRCF: FN_CLASS; SRCB: UNIT_FNCLASS) a unit may use a subclass of Fn
 
 
 class Translator:
@@ -4441,7 +5432,8 @@ def generate():
         consts += [t.consts[c] for c in sorted(t.consts)] + ([UNIT_PREAMBLE[ofn]] if ofn in UNIT_PREAMBLE else [])
         text = HEAD % (fn + "".join(", " + f for _, f in UNIT_STRATEGY.get(ofn, ())), "", req + "".join(" Gen." + u[:-2] for u in uses)) + (
             "From Coq Require Import String Ascii.\n\n" if "Base.PyStr" in req else "") + (
-            "\n".join(consts) + "\n" if consts else "") + "\n".join(t.done[k].body_text for k in t.order) + ("\n" + fails if fails else "")
+            "\n".join(consts) + "\n" if consts else "") + "\n".join(t.done[k].body_text for k in t.order) + ("\n" + fails if fails else "") + (
+            UNIT_POSTAMBLE.get(ofn, ""))
         text.encode("ascii")
         out[ofn] = text
     return out
